@@ -546,3 +546,21 @@ package jsonpatch
 //@   ensures[C02,C16] rejects-ill-formed-doc: !wf(docData) ==> err != nil && result.0 == nil
 //@   ensures[C02,C16] rejects-ill-formed-patch: !wf(patchData) ==> err != nil && result.0 == nil
 //@   ensures[C02] null-document: wf(docData) && wf(patchData) && kind(val(docData)) == KNull ==> err != nil
+
+// ---- exported wrappers: "every patch that DecodePatch accepts, any non-nil options" ----
+
+//@ func (Patch).Apply
+//@   requires patch: patchOK(p) && (forall j int {p[j]} :: 0 <= j && j < len(p) ==> validOp(p[j]))
+//@   ensures[C08] nothing-with-error: err != nil ==> result.0 == nil
+
+//@ func (Patch).ApplyWithOptions
+//@   requires options: options != nil
+//@   requires patch: patchOK(p) && (forall j int {p[j]} :: 0 <= j && j < len(p) ==> validOp(p[j]))
+//@   ensures[C08] nothing-with-error: err != nil ==> result.0 == nil
+
+//@ func (Patch).ApplyIndent
+//@   requires patch: patchOK(p) && (forall j int {p[j]} :: 0 <= j && j < len(p) ==> validOp(p[j]))
+//@   ensures[C08] nothing-with-error: err != nil ==> result.0 == nil
+
+//@ func (*partialDoc).TrustMarshalJSON
+//@   requires recv: n != nil && buf != nil
